@@ -77,6 +77,9 @@ func (sh *SearchHistory) Load() error {
 		return nil
 	}
 
+	// Decode into a fresh slice: json.Unmarshal reuses the elements of an existing one, and
+	// fields the file omits (context, duration) would keep the values of replaced entries
+	sh.Entries = make([]SearchEntry, 0)
 	err = json.Unmarshal(data, sh)
 	if sh.MaxSize <= 0 {
 		sh.MaxSize = 100 // Ignore a nonsensical max_size from the file
